@@ -1,6 +1,7 @@
 """Materialisers: type spec -> pydsdl objects through the public constructors (API) or through DSDL text (TEXT)."""
 from __future__ import annotations
 
+import json
 import os
 import typing
 from pathlib import Path
@@ -11,16 +12,23 @@ from ..ref import layout
 class ApiBuilder:
     """Builds pydsdl types from specs with the public constructors; every composite gets a synthetic name ns.T<n>."""
 
-    def __init__(self, root: str = "ns") -> None:
+    def __init__(self, root: str = "ns", share: bool = False) -> None:
         self.root = root
         self.counter = 0
         self.by_spec: typing.List[typing.Tuple[typing.Any, typing.Any]] = []  # (spec, pydsdl type) in creation order
+        # share: a composite that occurs several times in the spec (equal by value) is built once and the one object is used at every
+        # place - the way all users of a definition share its type object after read_namespace
+        self.share = share
+        self.shared: typing.Dict[str, typing.Any] = {}
 
     def build(self, spec: typing.Any) -> typing.Any:
         import pydsdl
 
         P = pydsdl.PrimitiveType.CastMode
         k = spec[0]
+        key = json.dumps(spec) if self.share and k in ("struct", "union", "delim") else None
+        if key is not None and key in self.shared:
+            return self.shared[key]
         if k == "bool":
             t = pydsdl.BooleanType()
         elif k == "uint":
@@ -66,6 +74,8 @@ class ApiBuilder:
             t = pydsdl.DelimitedType(inner, layout.extent(spec))
         else:
             raise ValueError(spec)
+        if key is not None:
+            self.shared[key] = t
         self.by_spec.append((spec, t))
         return t
 
@@ -92,6 +102,24 @@ def dsdl_type_text(spec: typing.Any, refs: typing.Dict[int, str]) -> str:
 
 # short names that begin like a primitive type or a keyword (legal names; a grammar that tries the primitives first chokes on them)
 TRICKY_NAMES = ["T%d", "boolean%d", "byteorder%d", "utf8x%d", "uint8ish%d", "int16lib%d", "float32s%d", "void1like%d", "truncatedx%d", "saturated_%d", "true_%d", "Bool%d"]
+
+
+def intern_spec(spec: typing.Any, table: typing.Optional[typing.Dict[str, typing.Any]] = None) -> typing.Any:
+    """The same spec with composites that are equal by value made one and the same object (the text builder writes one definition per
+    composite *object*): every place then refers to the one definition and, after reading, shares its type object."""
+    table = {} if table is None else table
+    if not isinstance(spec, (list, tuple)):
+        return spec
+    k = spec[0]
+    if k in ("fixed", "var"):
+        return [k, intern_spec(spec[1], table), spec[2]]
+    if k == "delim":
+        out: typing.Any = [k, intern_spec(spec[1], table)] + list(spec[2:])
+    elif k in ("struct", "union"):
+        out = [k, [[n, intern_spec(t, table)] for n, t in spec[1]]] + list(spec[2:])
+    else:
+        return spec
+    return table.setdefault(json.dumps(out), out)
 
 
 class TextBuilder:
